@@ -244,6 +244,118 @@ mod verif_c18_tp {
 }
 """
 
+# --------------------------------------------------------------------------- util::fmt::format_f64 for EVERY rendering (Verus)
+F64_SPEC = r"""
+// ---- stand-ins for std string operations (ASSUMED)
+pub uninterp spec fn rendering(val: f64) -> Seq<char>;
+#[verifier::external_body]
+pub fn f64_to_string(val: f64) -> (r: String) ensures r@ == rendering(val) { unimplemented!() }
+pub open spec fn first_dot(s: Seq<char>) -> Option<int> {
+    if exists |i: int| 0 <= i < s.len() && s[i] == '.' { Some(choose |i: int| 0 <= i < s.len() && s[i] == '.' && forall |j: int| 0 <= j < i ==> s[j] != '.') } else { None }
+}
+#[verifier::external_body]
+pub fn find_dot(s: &String) -> (r: Option<usize>)
+    ensures match r { Some(i) => i < s@.len() && s@[i as int] == '.' && forall |j: int| 0 <= j < i ==> s@[j] != '.', None => forall |j: int| 0 <= j < s@.len() ==> s@[j] != '.' }
+{ unimplemented!() }
+#[verifier::external_body]
+pub fn truncate(s: &mut String, n: usize)
+    requires n <= old(s)@.len()
+    ensures final(s)@ == old(s)@.subrange(0, n as int)
+{ unimplemented!() }
+#[verifier::external_body]
+pub fn get_range<'a>(s: &'a String, a: usize, b: usize) -> (r: Option<&'a str>)
+    ensures (r is Some) == (a <= b && b <= s@.len()), r is Some ==> r->Some_0@ == s@.subrange(a as int, b as int)
+{ unimplemented!() }
+// index, counted from the end, of the last character that is not '0'
+#[verifier::external_body]
+pub fn zeros_at_end(f: &str) -> (r: Option<usize>)
+    ensures match r {
+        Some(i) => i < f@.len() && f@[f@.len() - 1 - i] != '0' && forall |j: int| f@.len() - i <= j < f@.len() ==> f@[j] == '0',
+        None => forall |j: int| 0 <= j < f@.len() ==> f@[j] == '0' }
+{ unimplemented!() }
+
+pub proof fn lemma_first_dot(r: Seq<char>, i: int)
+    requires 0 <= i < r.len(), r[i] == '.', forall |j: int| 0 <= j < i ==> r[j] != '.',
+    ensures forall |d: int| 0 <= d < r.len() && r[d] == '.' && (forall |j: int| 0 <= j < d ==> r[j] != '.') ==> d == i,
+{
+    assert forall |d: int| 0 <= d < r.len() && r[d] == '.' && (forall |j: int| 0 <= j < d ==> r[j] != '.') implies d == i by {
+        if d < i { assert(r[d] != '.'); } else if i < d { assert(r[i] != '.'); }
+    }
+}
+// ---- the rule
+pub open spec fn all_zero(s: Seq<char>) -> bool { forall |j: int| 0 <= j < s.len() ==> s[j] == '0' }
+// how many of the decimals are shown: up to the last one that is not '0'
+pub open spec fn kept(frac: Seq<char>) -> int decreases frac.len() {
+    if frac.len() == 0 { 0 } else if frac.last() != '0' { frac.len() as int } else { kept(frac.drop_last()) }
+}
+pub proof fn lemma_kept(frac: Seq<char>, z: int)
+    requires 0 <= z <= frac.len(), forall |j: int| frac.len() - z <= j < frac.len() ==> frac[j] == '0',
+        z < frac.len() ==> frac[frac.len() - 1 - z] != '0',
+    ensures kept(frac) == frac.len() - z,
+    decreases z,
+{
+    if frac.len() == 0 { } else if z == 0 { } else {
+        assert(frac.last() == '0');
+        lemma_kept(frac.drop_last(), z - 1);
+    }
+}
+pub open spec fn rule(r: Seq<char>, sig: int, out: Seq<char>) -> bool {
+    forall |d: int| 0 <= d < r.len() && r[d] == '.' && (forall |j: int| 0 <= j < d ==> r[j] != '.') ==> {
+        let k = if sig > d { sig - d } else { 0 };          // decimals allowed
+        if k == 0 { out == r.subrange(0, d) }
+        else if d + 1 + k > r.len() { out == r }            // fewer decimals than allowed: shown as rendered
+        else {
+            let frac = r.subrange(d + 1, d + 1 + k);
+            if kept(frac) == 0 { out == r.subrange(0, d) }   // no lone dot
+            else { out == r.subrange(0, d + 1 + kept(frac)) } // decimals truncated after the k-th, trailing zeros dropped
+        }
+    }
+}
+
+"""
+
+PIN_PREZERO = """fract_str.bytes().rev().enumerate().find_map(|(i, b)| {
+                        if b != b'0' {
+                            Some(i)
+                        } else {
+                            None
+                        }
+                    })"""
+
+
+def format_f64_files(S: Sources):
+    """util::fmt::format_f64: whatever text f64::to_string produces, the result is that text cut after max(0, sig - d) decimals (d = position
+    of the first dot), trailing zeros and a lone dot dropped, the integer digits in full; a text without a dot is returned as it is. The std
+    string operations (f64::to_string, str::find('.'), String::truncate, str::get(range), the bytes().rev().enumerate().find_map(..) chain)
+    are stand-ins with ASSUMED contracts; the bounded Kani harnesses verif_c18_trunc::* run the same rule on the compiled function."""
+    import copy
+    from units.loop_common import pin
+    uf = S(UFMT)
+    f = uf.find_fn("format_f64")
+    sec = code_fn(uf, f, "util::fmt::format_f64", ret="r", pair=["verif_c18_trunc::truncation_d1", "verif_c18_trunc::truncation_d3"],
+                  subst=[(r"\bval\s*\.\s*to_string\(\s*\)", "f64_to_string(val)", 1),
+                         (r"\bstr\s*\.\s*find\(\s*'\.'\s*\)", "find_dot(&str)", 1),
+                         (r"\bstr\s*\.\s*truncate\(([^()]*)\)", r"truncate(&mut str, \1)", "any"),
+                         (r"\bstr\s*\.\s*get\(\s*(\w+)\s*\)", r"get_range(&str, \1.start, \1.end)", 1),
+                         (pin(PIN_PREZERO), "zeros_at_end(fract_str)", 1)],
+                  inserts=[(r"let mut str = f64_to_string \( val \) ;", "after", "let ghost r0 = str@;", 1),
+                           (r"if fract_digits == 0 \{", "before", "proof { lemma_first_dot(r0, dot_index as int); }", 1, "hint"),
+                           (r"if let Some \( pre_zero \) = pre_zero \{", "before", """
+                               proof {
+                                   assert(r0.subrange(dot_index + 1, dot_index + 1 + fract_digits) =~= fract_str@);
+                                   match pre_zero { Some(z) => lemma_kept(fract_str@, z as int), None => lemma_kept(fract_str@, fract_str@.len() as int) }
+                               }
+                           """, 1, "hint")],
+                  clauses="""
+        requires sig_figs < usize::MAX, rendering(val).len() < usize::MAX,
+        ensures rule(rendering(val), sig_figs as int, r@),
+            (forall |j: int| 0 <= j < rendering(val).len() ==> rendering(val)[j] != '.') ==> r@ == rendering(val),
+    """)
+    secs = [ghost("C18 format_f64 spec, lemmas and std string stand-ins (ASSUMED)", F64_SPEC, kind="trusted"), sec]
+    csecs = copy.deepcopy(secs) + [ghost("canaries", "pub fn canary_format_f64(v: f64, s: usize) requires s < 100, rendering(v).len() < 1000 { let r = format_f64(v, s); assert(false); }", kind="lemma")]
+    return [VerusFile("c18_format_f64", secs), VerusFile("c18_format_f64_canary", csecs, expect_fail=True)]
+
+
 def verus_files(S: Sources):
     fd = S(FD)
     secs = []
@@ -420,7 +532,7 @@ def throughput_file(S: Sources):
 
 def build(S: Sources) -> Unit:
     errs = []
-    vfiles = guarded(lambda: verus_files(S), errs, [])
+    vfiles = guarded(lambda: verus_files(S), errs, []) + guarded(lambda: format_f64_files(S), errs, [])
     tf = guarded(lambda: throughput_file(S), errs, None)
     if tf is not None:
         vfiles = vfiles + [tf]
